@@ -1,6 +1,5 @@
 package main
 
-import sdk "github.com/cosmos/cosmos-sdk/types"
 
 func (r *Recorder) BeginBlock() string {
 	ctx := r.c.CtxV()
@@ -16,4 +15,3 @@ func (r *Recorder) EndBlock() string {
 	return out
 }
 
-func (c *Chain) dumpRest(ctx sdk.Context) []Table { return nil }
